@@ -42,37 +42,47 @@ Theorem Gen_deepcopy_ok : deepcopy_ok gen_tc_fields gen_tc_copy_types = true.
 Proof. exact deepcopy_disciplined. Qed.
 Print Assumptions Gen_deepcopy_ok.
 
-(* The only rows excused as known findings: the two rows of the unlocked read in IsNamespaceScoped, and the
-   store that clears schemaInit when a build names a built-in version. *)
-Theorem Gen_globals_findings_are_f9 :
-  map (fun r => (a_fn r, a_var r)) (finding_rows var_prots allow_list gen_accesses)
-  = [("IsNamespaceScoped", "kyaml/openapi.globalSchema.namespaceabilityByResourceType");
-     ("IsNamespaceScoped", "kyaml/openapi.globalSchema.namespaceabilityByResourceType[]");
-     ("SetSchema", "kyaml/openapi.globalSchema.schemaInit")].
-Proof. exact globals_findings_are_f9. Qed.
-Print Assumptions Gen_globals_findings_are_f9.
+(* The only row excused as a KNOWN FINDING: the store that clears schemaInit when a build names a built-in version
+   (the unlocked read in IsNamespaceScoped, F9, was repaired in /repo db2770f and is no longer excused). *)
+Theorem Gen_globals_findings_are_reinit :
+  map (fun r => (a_fn r, a_var r, a_ord r)) (finding_rows var_prots allow_list gen_accesses)
+  = [("SetSchema", "kyaml/openapi.globalSchema.schemaInit", 1%N)].
+Proof. exact globals_findings_are_reinit. Qed.
+Print Assumptions Gen_globals_findings_are_reinit.
 
-(* Full statement "every access on the build path is disciplined" is FALSE on the current tree (finding F9):
-   the generated table contains a reachable read of the namespaceability map with an empty context. *)
+(* The repaired read: IsNamespaceScoped has rows in the table and all of them are judged disciplined (R:schemaLock). *)
+Theorem Gen_globals_is_ns_scoped_locked :
+  forallb (fun r => negb (String.eqb (a_fn r) "IsNamespaceScoped") || row_disciplined var_prots r) gen_accesses = true /\
+  existsb (fun r => String.eqb (a_fn r) "IsNamespaceScoped") gen_accesses = true.
+Proof. exact globals_is_ns_scoped_locked. Qed.
+Print Assumptions Gen_globals_is_ns_scoped_locked.
+
+(* Full statement "every access on the build path is disciplined without exception" is still FALSE on the current
+   tree: a reachable store clears the init flag (explicit built-in version) while reachable map reads are justified
+   only by "after initSchema() returned". *)
 Theorem C16_globals_strict_refuted :
-  exists r, In r gen_accesses /\ a_reach r = true /\ row_disciplined var_prots r = false /\
-            a_fn r = "IsNamespaceScoped" /\ a_ctx r = [].
+  (exists r, In r gen_accesses /\ a_reach r = true /\ is_reset_site r = true /\
+             a_fn r = "SetSchema" /\ a_var r = "kyaml/openapi.globalSchema.schemaInit" /\ a_val r = "false" /\ a_ord r = 1%N) /\
+  (exists r, In r gen_accesses /\ a_reach r = true /\ a_fn r = "SchemaForResourceType" /\
+             a_kind r = AMapRead /\ a_ctx r = ["A:kyaml/openapi.initSchema"]).
 Proof. exact globals_strict_refuted. Qed.
 Print Assumptions C16_globals_strict_refuted.
 
-(* ... and in the action model the call sequence of the current IsNamespaceScoped (lock; unlock; unlocked map
-   read) next to a build running initSchema does have a racy schedule. *)
-Theorem C16_race_free_refuted :
-  exists tr, schedule_of [init_schema_call; is_ns_scoped_call] tr /\ race tr.
-Proof. exact f9_race. Qed.
-Print Assumptions C16_race_free_refuted.
-
-(* What does hold: with the map read under the read lock, any number of concurrent builds
-   (SetSchema; IsNamespaceScoped; SchemaForResourceType) are race free under every schedule. *)
-Theorem C16_race_free_partial :
+(* Default-schema builds are race free: any number of concurrent builds with the call sequences of the current code
+   (SetSchema(reset); IsNamespaceScoped with the map read under the read lock; SchemaForResourceType = initSchema
+   then an unlocked read of the index that only the once-like initSchema body writes) under every schedule. *)
+Theorem C16_race_free_default_schema :
   forall n tr, schedule_of (repeat build_a n) tr -> ~ race tr.
 Proof. exact disciplined_builds_race_free. Qed.
-Print Assumptions C16_race_free_partial.
+Print Assumptions C16_race_free_default_schema.
+
+(* For all builds of the property's domain the statement is still FALSE: a build that names a built-in version makes
+   initSchema parse again; that second run (plain writes under the lock) next to a build that is between initSchema()
+   and its unlocked index read has a racy schedule (explicit 11-event trace). *)
+Theorem C16_race_free_refuted :
+  exists tr, schedule_of [schema_for_call; reinit_call] tr /\ race tr.
+Proof. exact reinit_race. Qed.
+Print Assumptions C16_race_free_refuted.
 
 (* Result independence. Builds that use the built-in schema (no openapi field or the default version spelled
    out, also in sub-kustomizations), run concurrently under ANY schedule of their atomic schema actions:
